@@ -384,4 +384,10 @@ def run(pid, tier, replay=None):
                          "encoding, mutations placed by the grammar (1-3 extra leading 0x80 at every VLQ/count, counts +-1, every other tag value, length bytes, "
                          "truncation at every field boundary, trailing data, bit flips); VLQ strings of 1-2 bytes exhaustively (quick: a sample of first bytes); random bytes")
     chk.assumptions.append("ids and canonical encodings are computed by harness/indep.py with hashlib; SHA-256 is not modelled in TLA+")
+    # ---- "id = hash of the canonical encoding" for the objects a running node holds: blocks found by its own miner processes (two of them,
+    #      interleaved), filed, served and broadcast under their ids
+    from checks import minedblocks
+    rc_ = minedblocks.stage(chk, quick, rng, pid)
+    if rc_:
+        return rc_
     return chk.finish()
